@@ -62,6 +62,14 @@ def gen_fault_script(rng):
             w()
         if rng.random() < 0.3:
             L += [rng.choice(['close_active', 'force_update always']), 'snapcheck', 'tracecheck all']
+    if rng.random() < 0.5:
+        # the fault hits the CREATION of a blob (its 20-byte header is written short, or cannot be synced): whatever
+        # reached the new file stays there (or goes to the quarantine directory at the next start), it is not removed
+        L += ['close_active', 'snapcheck', 'tracecheck all']
+        L.append('fail %s' % rng.choice(['append .blob 0 short:7', 'append .blob 0 short:19', 'sync .blob 0 EIO', 'append .blob 0 ENOSPC', 'sync .blob 0 ENOSPC']))
+        L.append(rng.choice(['create_active', 'W %s 5 - 5 900' % (3).to_bytes(K, 'big').hex()]))
+        L += ['snapcheck', 'tracecheck all', 'clearfail']
+        w()
     L += ['close', 'snapcheck', 'tracecheck all', 'open', 'snapcheck', 'tracecheck all']
     w()
     return '\n'.join(L) + '\n'
